@@ -1,7 +1,7 @@
 PROPERTIES = ['C03', 'C02']
 BOUNDS = {
     'quick': 'pair<TA,TB> and tuple<TA,TB,int> with instrumented members: every constructor, assignment and swap form that exists, self-assignment and self-swap; payloads and raw object bytes symbolic; '
-             'copy+move, move-only and copy-only members',
+             'copy+move, move-only, copy-only and defaulted-assignment members',
     'thorough': 'same as quick (there is no size or state to enumerate)',
 }
 ASSUMPTIONS = [
@@ -20,10 +20,11 @@ for f_, n_ in (('d_sym_block', 40), ('lg_register', 18), ('lg_expect', 18), ('lg
 def queries(tier, prop='C03'):
     ub = prop == 'C02'
     out = []
-    for fl in ((0, 1, 2) if not ub else (0,)):
+    for fl in ((0, 1, 2, 3) if not ub else (0,)):
         for (pre, al, cp) in (('p_', P_ALL, P_COPY), ('t_', T_ALL, T_COPY)):
             for e in al + ([] if fl == 1 else cp):
                 out.append(dict(entry='q_' + pre + e, cfg={'FLAV': fl}, unwind=24, unwindset=UW, budget=120, ub=ub, nofunc=ub))
     for q_ in out:
         q_['lazy_trace'] = True   # verdict first, counterexample trace only when an obligation fails (engine/runner.py)
+        if q_['cfg'].get('FLAV') == 3: q_['cbmc_flags'] = ['--max-field-sensitivity-array-size', '256']   # defaulted assignment = memcpy through pointers: keep the ledger global field-sensitive
     return out
